@@ -610,6 +610,23 @@ theorem lane_op_compare_mixed_nested (sem : CmpOp → α → Simd.Arg σ α → 
     (fun (x : Vec α S₂) g => Simd.binVS loop_COMPARISON_OP_vs (sem op) x g) a (Simd.Arg.own s)).lane h i hi
   exact (binVS_canonical loop_COMPARISON_OP_vs (by decide) (by decide) (by decide) (sem op) a[i] (Simd.Arg.own s)).lane h1 j hj
 
+/-- **`Simd::cond` with a mask of another type** (a flat `LoopSIMD<bool, S*S₂>` on a vector of vectors): interface.hh
+    converts the mask with `implCast<Mask<V>>` (defaults.hh, lane by lane), so entry `(i, j)` of the result is selected by
+    lane `i * S₂ + j` of the mask — the lane with the same number -/
+theorem lane_cond_foreign_mask (m : Vec Bool (S * S₂)) (a b : Vec (Vec α S₂) S) :
+    ∃ r, ((Simd.implCastToNested false m).bind fun mm => Simd.condNested mm a b) = some r ∧
+      ∀ i (hi : i < S) j (hj : j < S₂), ∃ h : i * S₂ + j < S * S₂,
+        (r[i])[j] = if m[i * S₂ + j] then (a[i])[j] else (b[i])[j] := by
+  obtain ⟨mm, hmm, hl⟩ := implCastToNested_lanes false m
+  refine ⟨_, by rw [hmm]; exact cond_nested mm a b, ?_⟩
+  intro i hi j hj
+  have hb : i * S₂ + j < S * S₂ :=
+    Nat.lt_of_lt_of_le (Nat.add_lt_add_left hj _) (by rw [← Nat.succ_mul]; exact Nat.mul_le_mul_right _ hi)
+  refine ⟨hb, ?_⟩
+  have h1 := hl (i * S₂ + j) hb
+  rw [nested_lane_entry_aux mm i j hi hj, lane_flat m _ hb] at h1
+  simp [Vector.getElem_ofFn, Option.some.inj h1]
+
 end Mixed
 
 /-- mixed comparison of exact integers with exact halves (`σ = Int`, value `s/2`): `[1,2,3,4] < 5/2` is `[1,1,0,0]`;
@@ -623,46 +640,57 @@ example : Simd.compareVSx halfCmp (fun s => some (Int.tdiv s 2)) (fun s => some 
 example : Simd.binVSx { loop_COMPARISON_OP_vs with scalarTy := .laneScalar } (halfCmp .lt) (fun s => some (Int.tdiv s 2))
     (fun s => some (s != 0)) (#v[1, 2, 3, 4] : Vec Int 4) 5 = some #v[true, false, false, false] := by decide +kernel
 
+-- a flat four-lane mask selects in a 2×2 vector of vectors by lane number
+example : ((Simd.implCastToNested (S := 2) (S₂ := 2) false #v[true, false, false, true]).bind fun mm =>
+    Simd.condNested mm (#v[#v[1, 2], #v[3, 4]] : Vec (Vec Int 2) 2) #v[#v[10, 20], #v[30, 40]]) = some #v[#v[1, 20], #v[30, 4]] := by
+  decide +kernel
+
 section Checked
 variable {V : Type → Type} {L : Nat} (X : SimdLike V L) (hX : X.Lawful) {K : Type} (R : Arith K) {n : Nat}
 
+/-- the singularity tests the translator found in densematrix.hh (configuration `DUNE_FMatrix_WITH_CHECKING`): one in front
+    of each closed form of `solve` (n = 1, 2, 3) and of `invert` (n = 1, 2), each `Simd::anyTrue(absreal(det) < limit)` -/
+theorem checked_tests_shape :
+    chkSolve = [(1, .anyTrue, .lt), (2, .anyTrue, .lt), (3, .anyTrue, .lt)] ∧
+    chkInvert = [(1, .anyTrue, .lt), (2, .anyTrue, .lt)] := by decide
+
 include hX in
-/-- **solve in the checked configuration** (`DUNE_FMatrix_WITH_CHECKING`; `chk = some below`, `below x` = the scalar test
-    `absreal(x) < absolute_limit()`; `chk = none`: macro not defined): if the SIMD call returns, the scalar call returns
-    for every lane with that lane of the solution … -/
-theorem solve_checked_lanewise (chk : Option (K → Bool)) (piv : Bool) (A : Mat (V K) n) (b x : Vector (V K) n)
+/-- **solve in the checked configuration** (`DUNE_FMatrix_WITH_CHECKING`; `chk = some below`, `below c x` = the scalar test
+    `absreal(x) c absolute_limit()`; `chk = none`: macro not defined), executed from the translated test table: if the SIMD
+    call returns, the scalar call returns for every lane with that lane of the solution … -/
+theorem solve_checked_lanewise (chk : Option (CmpOpName → K → Bool)) (piv : Bool) (A : Mat (V K) n) (b x : Vector (V K) n)
     (h : solveC X R chk piv A b = some x) (l : Fin L) :
     solveC (V := fun α => α) SimdLike.scalar R chk piv (laneMat X l A) (laneVec X l b) = some (laneVec X l x) :=
-  solveC_lanewise_some X hX R chk piv A b x h l
+  solveC_lanewise_some X hX R (by decide) chk piv A b x h l
 
 include hX in
 /-- … and it throws `FMatrixError` exactly if the scalar call throws for at least one lane — in particular when the matrix
     is below the limit in **some but not all** lanes -/
-theorem solve_checked_throws_iff (chk : Option (K → Bool)) (piv : Bool) (A : Mat (V K) n) (b : Vector (V K) n) :
+theorem solve_checked_throws_iff (chk : Option (CmpOpName → K → Bool)) (piv : Bool) (A : Mat (V K) n) (b : Vector (V K) n) :
     solveC X R chk piv A b = none ↔
       ∃ l, solveC (V := fun α => α) SimdLike.scalar R chk piv (laneMat X l A) (laneVec X l b) = none := by
   constructor
-  · exact solveC_lanewise_none X hX R chk piv A b
+  · exact solveC_lanewise_none X hX R (by decide) chk piv A b
   · rintro ⟨l, hl⟩
     cases h : solveC X R chk piv A b with
     | none => rfl
-    | some x => rw [solveC_lanewise_some X hX R chk piv A b x h l] at hl; cases hl
+    | some x => rw [solveC_lanewise_some X hX R (by decide) chk piv A b x h l] at hl; cases hl
 
 include hX in
-theorem invert_checked_lanewise (chk : Option (K → Bool)) (piv : Bool) (A B : Mat (V K) n)
+theorem invert_checked_lanewise (chk : Option (CmpOpName → K → Bool)) (piv : Bool) (A B : Mat (V K) n)
     (h : invertC X R chk piv A = some B) (l : Fin L) :
     invertC (V := fun α => α) SimdLike.scalar R chk piv (laneMat X l A) = some (laneMat X l B) :=
-  invertC_lanewise_some X hX R chk piv A B h l
+  invertC_lanewise_some X hX R (by decide) chk piv A B h l
 
 include hX in
-theorem invert_checked_throws_iff (chk : Option (K → Bool)) (piv : Bool) (A : Mat (V K) n) :
+theorem invert_checked_throws_iff (chk : Option (CmpOpName → K → Bool)) (piv : Bool) (A : Mat (V K) n) :
     invertC X R chk piv A = none ↔ ∃ l, invertC (V := fun α => α) SimdLike.scalar R chk piv (laneMat X l A) = none := by
   constructor
-  · exact invertC_lanewise_none X hX R chk piv A
+  · exact invertC_lanewise_none X hX R (by decide) chk piv A
   · rintro ⟨l, hl⟩
     cases h : invertC X R chk piv A with
     | none => rfl
-    | some B => rw [invertC_lanewise_some X hX R chk piv A B h l] at hl; cases hl
+    | some B => rw [invertC_lanewise_some X hX R (by decide) chk piv A B h l] at hl; cases hl
 
 /-- without the macro the two configurations coincide -/
 theorem checked_off_is_unchecked (piv : Bool) (A : Mat (V K) n) (b : Vector (V K) n) :
@@ -680,11 +708,13 @@ def regular3 : Mat (Vec Int 2) 3 :=
   #v[#v[#v[1, 1], #v[0, 0], #v[0, 0]],
      #v[#v[0, 0], #v[2, 1], #v[0, 0]],
      #v[#v[0, 0], #v[0, 0], #v[3, 1]]]
+/-- `|x| < 1` -/
+def belowOne : CmpOpName → Int → Bool := fun _ x => decide (intArith.abs x < 1)
 -- one singular lane makes the checked solve throw although the other lane is regular; the unchecked closed form returns
-example : solveC (SimdLike.loop 2) intArith (some fun x => decide (intArith.abs x < 1)) true mixed3 #v[#v[1, 1], #v[2, 1], #v[3, 1]] = none ∧
+example : solveC (SimdLike.loop 2) intArith (some belowOne) true mixed3 #v[#v[1, 1], #v[2, 1], #v[3, 1]] = none ∧
     (solveC (SimdLike.loop 2) intArith none true mixed3 #v[#v[1, 1], #v[2, 1], #v[3, 1]]).isSome = true := by decide +kernel
 -- … and with both lanes regular it returns the lane-wise solution
-example : solveC (SimdLike.loop 2) intArith (some fun x => decide (intArith.abs x < 1)) true regular3 #v[#v[1, 1], #v[2, 1], #v[3, 1]]
+example : solveC (SimdLike.loop 2) intArith (some belowOne) true regular3 #v[#v[1, 1], #v[2, 1], #v[3, 1]]
     = some #v[#v[1, 1], #v[1, 1], #v[1, 1]] := by decide +kernel
 
 end DV.C09
